@@ -24,9 +24,22 @@ EXPLANATION = (
     "is never stored in rw_uri, the same given cap never ends in both rw_uri and ro_uri, a non-empty rw_uri is never paired "
     "with a ro_uri found to be alleged-immutable; (9) every value from_string can return is produced by this call's "
     "guarded parse (directly or through helpers that receive deep_immutable unchanged - (5) is then decided inside the "
-    "helper); a value kept across calls must be looked up and stored under a key that depends on deep_immutable. "
-    "Undecided: hash functions behind the derivations (C17), behaviour of node classes built from the caps.")
-TECHNIQUE = "static analysis: def-use dependence of constructor arguments, constant tables cross-checked, CFG dominance / small abstract interpretation (copies of the given caps, prefix/truth facts per path) in from_string and UnknownNode.__init__, provenance of from_string's return values through reaching definitions and helper calls"
+    "helper); a value kept across calls must be looked up and stored under a key that depends on deep_immutable; "
+    "(10) from_string and its helpers, path by path: once a recognised kind was refused (its prefix test held and the flag was "
+    "found false, with no other kind test in between) every return gives UnknownURI(.., error) with an error that is not "
+    "None on that path - never None, never an error-less UnknownURI; (11) UnknownNode.__init__: a given cap, or a string "
+    "made from it, is stored in ro_uri only on paths on which uri.from_string of that same cap was found either not to be an "
+    "UnknownURI or to have a false get_error(); (12) the cap given in the write slot reaches ro_uri (as is or inside a longer "
+    "string) only on paths that found the 'ro.' or 'imm.' prefix on it; (13) from_string and helpers: on every path from a successful "
+    "'imm.'/'ro.' prefix test to the first kind test, the variable the kind tests examine was re-bound to the tested string "
+    "minus exactly that prefix (constant-folded slice bound). "
+    "Undecided: hash functions behind the derivations (C17), behaviour of node classes built from the caps; value-level "
+    "clauses: which error class a refusal carries and its text, that BadURIError of a malformed known kind is reported, that "
+    "the dispatch prefix literal matches the class parsed (init_from_string's own STRING_RE rejects a mismatch), the exact "
+    "slices taken in UnknownNode.__init__ / strip_prefix_for_ro when a prefix is exchanged or dropped, that opaque UnknownNodes (rw_uri = ro_uri = None) record an error, that "
+    "DirectoryNode raises the recorded error, forward-compatibility behaviour of the x-tahoe-future-test caps, node cache "
+    "and blacklist handling in create_from_cap.")
+TECHNIQUE = "static analysis: def-use dependence of constructor arguments, constant tables cross-checked, CFG dominance / small abstract interpretation (copies of the given caps, prefix/truth facts per path) in from_string and UnknownNode.__init__, provenance of from_string's return values through reaching definitions and helper calls, path-wise monitors (refusal -> error set; prefix found -> prefix cut; parse error examined -> ro_uri stored)"
 
 URI_MOD = "allmydata.uri"
 SECRET_FOR_RO = {"writekey"}
@@ -1007,6 +1020,74 @@ def run(ctx: Context):
                                         "carry the alleged-immutable prefix: an object alleged immutable is given write "
                                         "authority (path: %s)" % (t, t2, w.brief(20)), w)
 
+    # -- 11./12. UnknownNode: what may be stored in ro_uri ------------------------------------------------
+    def ro_stores():
+        """[(node, state, value expr, base cap tokens the value is made from)] for every reachable non-None ro_uri store."""
+        (fn, cfg, toks, visited, parent) = unknown_walk()
+        nodes = [n for n in cfg.find(stores("self.ro_uri")) if isinstance(n.ast, (ast.Assign, ast.AnnAssign))
+                 and n.ast.value is not None and not (isinstance(n.ast.value, ast.Constant) and n.ast.value.value is None)]
+        if not nodes:
+            raise AnchorVanished("UnknownNode.__init__ stores no ro_uri")
+        out = []
+        for (nid, st) in sorted(visited, key=lambda x: (x[0], str(x[1]))):
+            n = cfg.nodes[nid]
+            if n not in nodes:
+                continue
+            vals = dict(st[0])
+            made = set()
+            for x in ast.walk(n.ast.value):
+                if isinstance(x, (ast.Name, ast.Attribute)):
+                    made |= {t for t in toks(vals, x) if "(" not in t}
+            out.append((n, (nid, st), n.ast.value, sorted(made)))
+        return fn, cfg, parent, nodes, out
+
+    with ctx.rule("C16.11", "R3", "UnknownNode.__init__: a given cap (or a string made from it) is stored in ro_uri only on paths "
+                  "that passed it through uri.from_string and found no refusal (the parse is not an UnknownURI, or its "
+                  "get_error() is false)", expected=5) as r:
+        fn, cfg, parent, nodes, hits = ro_stores()
+        for n in nodes:
+            r.site(fn, n.ast, "ro_uri store")
+        r.count(len(hits))
+        reported = set()
+        for (n, ps, v, made) in hits:
+            facts = ps[1][1]
+            for t in made:
+                ok = ("error(%s)" % t, "truth", False) in facts or ("parse(%s)" % t, "unknown", False) in facts
+                if not ok and (n.id, t) not in reported:
+                    reported.add((n.id, t))
+                    w = witness(cfg, parent, ps)
+                    why = "found an error in its parse" if ("error(%s)" % t, "truth", True) in facts else \
+                        "never looked at the error of uri.from_string(%s, deep_immutable)" % t
+                    r.violation(fn, fn.loc(n.ast), "UnknownNode stores ro_uri = %s on a path that %s: a cap that from_string "
+                                "refuses in this context (a write cap behind 'ro.', a mutable cap behind 'imm.' or in a "
+                                "deep-immutable directory) is kept and handed out as the node's read-only cap (path: %s)" % (
+                                    src(fn, v), why, w.brief(20)), w)
+
+    with ctx.rule("C16.12", "R3", "UnknownNode.__init__: the cap given in the write slot reaches ro_uri (as it is or inside a "
+                  "longer string) only on paths that found it to carry the 'ro.' or 'imm.' prefix", expected=5) as r:
+        fn, cfg, parent, nodes, hits = ro_stores()
+        (_fn, _cfg, toks, visited, _parent) = unknown_walk()
+        rw_toks = set()
+        for (nid, st) in visited:
+            n = cfg.nodes[nid]
+            if stores("self.rw_uri")(n) and isinstance(n.ast, (ast.Assign, ast.AnnAssign)) and n.ast.value is not None:
+                rw_toks |= {t for t in toks(dict(st[0]), n.ast.value) if "(" not in t}
+        if not rw_toks:
+            raise AnchorVanished("UnknownNode.__init__ stores none of its parameters in rw_uri")
+        for n in nodes:
+            r.site(fn, n.ast, "ro_uri store")
+        r.count(len(hits))
+        reported = set()
+        for (n, ps, v, made) in hits:
+            facts = ps[1][1]
+            for t in made:
+                if t in rw_toks and (t, "ro", True) not in facts and (t, "imm", True) not in facts and (n.id, t) not in reported:
+                    reported.add((n.id, t))
+                    w = witness(cfg, parent, ps)
+                    r.violation(fn, fn.loc(n.ast), "UnknownNode stores ro_uri = %s, made from the cap given as %s (the write "
+                                "slot), on a path that did not find an 'ro.'/'imm.' prefix on it: a possible write cap is "
+                                "published as the node's read-only cap (path: %s)" % (src(fn, v), t, w.brief(20)), w)
+
     # -- 9. from_string's result is a function of this call's context ------------------------------------
     with ctx.rule("C16.9", "R6", "every value uri.from_string may return is produced by this call's context-guarded parse "
                   "(K.init_from_string / UnknownURI, directly or through helpers given deep_immutable unchanged); a value "
@@ -1045,13 +1126,20 @@ def run(ctx: Context):
                 return False
 
             def transfer(n, lab, nxt, st, fnorm=fnorm, kind_test=kind_test):
-                flag_false, matched, nones = st
+                # a refusal = "this kind's prefix test held" and "the flag is false" established next to each other, i.e.
+                # with no other kind test in between (in either order: `K and not flag`, `not flag and K`, nested ifs)
+                pending, refused, nones = st
                 if n.kind == "test" and isinstance(lab, tuple):
                     f = fnorm.edge_fact(n, lab)
-                    if f and f[0] == "false" and f[1] in FLAGS:
-                        flag_false = True
-                    if lab[0] == "T" and kind_test(n):
-                        matched = True
+                    if kind_test(n):
+                        if lab[0] == "T":
+                            refused = refused or pending == "flag"
+                            pending = "kind"
+                        else:
+                            pending = None
+                    elif f and f[0] == "false" and f[1] in FLAGS:
+                        refused = refused or pending == "kind"
+                        pending = pending or "flag"
                 stored = node_stores(n)
                 if stored:
                     a = n.ast
@@ -1060,15 +1148,15 @@ def run(ctx: Context):
                         or (isinstance(val, ast.Name) and val.id in nones)
                     plain_t = [x for x in stored if "." not in x and not x.endswith("[]")]
                     nones = (nones | frozenset(plain_t)) if (is_none and val is not False) else (nones - frozenset(plain_t))
-                return (flag_false, matched, nones)
+                return (pending, refused, nones)
 
-            visited, parent = explore(cfg, (False, False, frozenset()), transfer)
+            visited, parent = explore(cfg, (None, False, frozenset()), transfer)
             r.count(len(visited))
             reported = set()
             seen = set()
             for (nid, st) in sorted(visited, key=lambda x: (x[0], str(x[1]))):
                 n = cfg.nodes[nid]
-                if not is_return(n) or not (st[0] and st[1]):
+                if not is_return(n) or not st[1]:
                     continue
                 if nid not in seen:
                     seen.add(nid)
@@ -1095,3 +1183,92 @@ def run(ctx: Context):
                                 "(path: %s)" % (fn.name, what, w.brief(12)), w)
         if not n_refusals:
             raise AnchorVanished("no return of from_string is reached after a refused kind (prefix test held, flag false)")
+
+    # -- 13. the dispatch examines the cap without the alleged prefix that was found ----------------------
+    with ctx.rule("C16.13", "R3", "from_string (and helpers): on every path from a successful 'imm.'/'ro.' prefix test to the "
+                  "first kind test, the string the kind tests examine was re-bound to the tested string minus exactly that "
+                  "prefix: otherwise a prefixed write/mutable cap is not recognised and comes back as an error-less "
+                  "UnknownURI instead of a refusal", expected=2) as r:
+        pw = parse_walk()
+        n_pt = 0
+        NO_PREFIX = ("-",)
+        for q in sorted(pw.funcs):
+            (fn, di) = pw.funcs[q]
+            cfg = fn.cfg()
+            pts = {n.id: _prefix_test(F, fn, n, PREFIX) for n in cfg.nodes}
+            pts = {k: v for k, v in pts.items() if v is not None}
+            if not pts:
+                continue
+
+            def kind_subject(n, fn=fn):
+                c = n.ast
+                if n.kind == "test" and isinstance(c, ast.Call) and call_tail(c) == "startswith" and len(c.args) == 1 \
+                        and isinstance(c.func, ast.Attribute) and isinstance(c.func.value, ast.Name):
+                    try:
+                        v = F.fold(c.args[0], fn.module, None)
+                    except NotConstant:
+                        return None
+                    if isinstance(v, bytes) and v not in PREFIX.values():
+                        return c.func.value.id
+                return None
+
+            def transfer(n, lab, nxt, st, fn=fn, pts=pts, kind_subject=kind_subject):
+                # st: NO_PREFIX or (tested var, which prefix, frozenset of (var, status)) - status of every
+                # variable re-bound since: 'cut' = tested string minus that prefix, 'miscut' = another slice of it, '?' other
+                if kind_subject(n) is not None:
+                    return None                 # examined on arrival at the first kind test
+                if n.id in pts and isinstance(lab, tuple) and lab[0] == "T":
+                    return (pts[n.id][0], pts[n.id][1], frozenset())
+                if st == NO_PREFIX:
+                    return st
+                (var, which, bound) = st
+                b = dict(bound)
+                if n.kind == "stmt" and isinstance(n.ast, ast.Assign) and len(n.ast.targets) == 1 \
+                        and isinstance(n.ast.targets[0], ast.Name):
+                    t, v = n.ast.targets[0].id, n.ast.value
+                    status = "?"
+                    if isinstance(v, ast.Subscript) and isinstance(v.value, ast.Name) and isinstance(v.slice, ast.Slice) \
+                            and v.value.id == var and b.get(var) is None:
+                        sl = v.slice
+                        try:
+                            lo = F.fold(sl.lower, fn.module, None) if sl.lower is not None else 0
+                        except NotConstant:
+                            lo = None
+                        if lo is not None:
+                            status = "cut" if (lo == len(PREFIX[which]) and sl.upper is None and sl.step is None) else "miscut"
+                    elif isinstance(v, ast.Name) and (v.id in b or v.id == var):
+                        status = b.get(v.id, "whole")
+                    b[t] = status
+                else:
+                    for x in node_stores(n):
+                        if "." not in x and not x.endswith("[]"):
+                            b[x] = "?"
+                return (var, which, frozenset(b.items()))
+
+            visited, parent = explore(cfg, NO_PREFIX, transfer)
+            r.count(len(visited))
+            for nid in sorted(pts):
+                n_pt += 1
+                r.site(fn, cfg.nodes[nid].ast, "%r prefix test" % PREFIX[pts[nid][1]])
+            reported = set()
+            for (nid, st) in sorted(visited, key=lambda x: (x[0], str(x[1]))):
+                n = cfg.nodes[nid]
+                subj = kind_subject(n)
+                if subj is None or st == NO_PREFIX:
+                    continue
+                (var, which, bound) = st
+                status = dict(bound).get(subj, "whole" if subj == var else "?")
+                if status == "cut" or (nid, which) in reported:
+                    continue
+                if status == "?":
+                    raise AnalysisError("%s: cannot tell what %s holds at the kind tests after the %r prefix was found" % (
+                        fn.qual, subj, PREFIX[which]))
+                reported.add((nid, which))
+                w = witness(cfg, parent, (nid, st))
+                r.violation(fn, fn.loc(n.ast), "%s found the alleged prefix %r on %s but its kind tests examine %s, which %s: a "
+                            "write or mutable cap behind the prefix is not recognised, so it is not refused but returned as an "
+                            "UnknownURI without error and kept by UnknownNode (path: %s)" % (
+                                fn.name, PREFIX[which], var, subj, "still carries the prefix" if status == "whole"
+                                else "is not that string minus exactly the prefix", w.brief(12)), w)
+        if not n_pt:
+            raise AnchorVanished("no 'imm.'/'ro.' prefix test in from_string or its helpers")
